@@ -16,7 +16,7 @@ package db
 //@   let META = typed(dbMeta(S, alias), "*github.com/wokdav/gopki/generator/db.Metadata")
 //@   let IMETA = typed(dbMeta(S, CFG.Issuer), "*github.com/wokdav/gopki/generator/db.Metadata")
 //@   let ART = typed(dbArt(S, alias), "*github.com/wokdav/gopki/generator/db.BuildArtifact")
-//@   let HASH = digest(1, jsonBytes(deep(typed(blankV(deref(CFG)), "github.com/wokdav/gopki/generator/config.CertificateContent"))))
+//@   let HASH = digest(3, jsonBytes(deep(typed(blankV(deref(CFG)), "github.com/wokdav/gopki/generator/config.CertificateContent"))))
 //@   requires cfg != nil ==> dbCfg(S, alias) != 0
 //@   let NOERR = dbCfgErr(S, alias) == #nilAny && dbCfgErr(S, CFG.Issuer) == #nilAny && dbMetaErr(S, alias) == #nilAny && dbMetaErr(S, CFG.Issuer) == #nilAny && dbArtErr(S, alias) == #nilAny
 //@   ensures @C11,C10 cfg == nil && (dbCfgErr(S, alias) != #nilAny || dbCfg(S, alias) == 0) ==> !res
